@@ -191,11 +191,23 @@ Fixpoint wf_stims_b (seen : list Z) (xs : list cstim) : bool :=
   | _ :: r => wf_stims_b seen r
   end.
 
+(* 10: "each address of the peer is handed to a transport at most once" starts with the list
+   handed to the worker: what addrsForDial (resolve, strip the /p2p component, de-duplicate,
+   filter) and the ranker answer for a request names every address once.  Addresses are
+   identified after stripping a trailing /p2p/<peer> component (the harness numbers them so). *)
+Fixpoint dup_ranking (i : Z) (xs : list cstim) : list Z :=
+  match xs with
+  | [] => []
+  | KCall _ _ _ (Some rk) :: r => if nodup_z (map fst rk) then dup_ranking (i + 1) r else [ERR_PROPERTY; i; 10]
+  | _ :: r => dup_ranking (i + 1) r
+  end.
+
 Definition monitor_d_case (l : list Z) : list Z :=
   match skip_header l with
   | Some (fdl, ppl, _, r) =>
       match decode_dtrace (S (length r)) r with
       | Some tr =>
+          match dup_ranking 0 (map fst tr) with (_ :: _) as d => d | [] =>
           if negb (wf_stims_b [] (map fst tr)) then [ERR_MALFORMED; 52] else
           match monitor_d fdl ppl (mkDmon [] [] [] false false) 0 tr with
           | [] =>
@@ -205,6 +217,7 @@ Definition monitor_d_case (l : list Z) : list Z :=
               | [] => []
               end
           | d => d
+          end
           end
       | None => [ERR_MALFORMED; 51]
       end
